@@ -668,3 +668,85 @@ def long_paths():
                   ("quiesce",), ("eof", 1), ("eof", 0), ("quiesce",)]
             out.append(Scenario(st, variant="bigmsg", name="long-paths-%d-%s" % (L, tr)))
     return out
+
+
+def escaped_ids():
+    """request ids whose JSON rendering is several times longer than the id itself (quotes, control characters, line feeds,
+    backslashes), for routed requests that the DAEMON has to answer (timeout, owner leaves) and that the owner answers"""
+    out = []
+    ids = ['"' * 100, "\n" * 120, "\x01" * 30, "\\" * 64, "é" * 60, 'a"b\\c\n' * 20, "\x7f" * 100, "\t\r\b\f" * 30]
+    for i, idv in enumerate(ids):
+        for ending in ("timeout", "owner-leaves", "reply", "reply-error"):
+            st = [("connect", 0, "raw", "local6"), ("connect", 1, "ws", "remote6"), ("connect", 2, "raw", "remote6"),
+                  ("msg", 0, obj(method="add", params=obj(path="s", value=1), id=1)),
+                  ("msg", 0, obj(method="add", params=obj(path="m"), id=2)),
+                  ("msg", 1, obj(method="set", params=obj(path="s", value=2), id=idv)),
+                  ("msg", 2, obj(method="call", params=obj(path="m", args=[1]), id=idv)),
+                  ("msg", 1, obj(method="info", id=idv)),
+                  ("msg", 2, obj(method="remove", params=obj(path="nosuch"), id=idv))]
+            if ending == "timeout":
+                st += [("advance", 6 * 10 ** 9)]
+            elif ending == "owner-leaves":
+                st += [("eof", 0)]
+            elif ending == "reply":
+                st += [("reply", 0, 0, "result", True), ("reply", 0, 1, "result", [1])]
+            else:
+                st += [("reply", 0, 0, "error", obj(code=1, message="no")), ("reply", 0, 1, "error", obj(code=2, message="no"))]
+            st += [("quiesce",), ("eof", 1), ("eof", 2)] + ([("eof", 0)] if ending != "owner-leaves" else []) + [("quiesce",)]
+            out.append(Scenario(st, name="escaped-ids-%d-%s" % (i, ending)))
+    return out
+
+
+def abandoned_requests(n=70):
+    """many callers in a row route a request to one long-lived owner and leave before it answers; afterwards a fresh caller's
+    request is still routed and answered (no per-owner bookkeeping may drift)"""
+    out = []
+    for kind in ("state", "method"):
+        for per_caller in (1, 4):
+            st = [("connect", 0, "raw", "local6"),
+                  ("msg", 0, obj(method="add", params=(obj(path="e", value=1) if kind == "state" else obj(path="e")), id=1))]
+            c = 1
+            sent = 0
+            while sent < n:
+                st.append(("connect", c, "raw" if c % 3 else "ws", "remote6"))
+                for k in range(per_caller):
+                    st.append(("msg", c, obj(method=("set" if kind == "state" else "call"), params=(obj(path="e", value=sent) if kind == "state" else obj(path="e", args=[sent])), id="a%d" % sent)))
+                    sent += 1
+                st.append(("eof", c))
+                c += 1
+            st += [("quiesce",), ("connect", c, "raw", "remote6"),
+                   ("msg", c, obj(method=("set" if kind == "state" else "call"), params=(obj(path="e", value=-1) if kind == "state" else obj(path="e")), id="fresh")),
+                   ("reply", 0, sent, "result", "served"),
+                   ("msg", c, obj(method="get", params=obj(), id=2)),
+                   ("quiesce",), ("eof", c), ("eof", 0), ("quiesce",)]
+            out.append(Scenario(st, name="abandoned-requests-%s-%d" % (kind, per_caller)))
+    return out
+
+
+def write_error_after_progress():
+    """the kernel takes part of a frame, then fails hard; later it would accept again, other frames are produced for that
+    connection and finally the connection is released: nothing more may reach the wire after the torn frame"""
+    out = []
+    for budget in ("5:err", "1:err", "30,7:err", "4,0,3:err", "120:err"):
+        for role in ("subscriber", "caller", "owner"):
+            for tr in ("raw", "ws"):
+                st = [("connect", 0, "raw", "local6"), ("connect", 1, tr, "remote6"), ("connect", 2, "raw", "remote6"),
+                      ("msg", 0, obj(method="add", params=obj(path="s", value="v" * 40), id=1)),
+                      ("msg", 0, obj(method="add", params=obj(path="m"), id=2)),
+                      ("msg", 2, obj(method="fetch", params=obj(id="g"), id=1))]
+                if role == "subscriber":
+                    st += [("msg", 1, obj(method="fetch", params=obj(id="f"), id=1)), ("wmode", 1, budget),
+                           ("msg", 0, obj(method="change", params=obj(path="s", value="w" * 90), id=3))]
+                elif role == "caller":
+                    st += [("msg", 1, obj(method="set", params=obj(path="s", value=2), id="r1")), ("wmode", 1, budget),
+                           ("reply", 0, 0, "result", "x" * 80)]
+                else:
+                    st += [("msg", 1, obj(method="add", params=obj(path="mine", value=1), id=1)), ("wmode", 1, budget),
+                           ("msg", 2, obj(method="set", params=obj(path="mine", value="y" * 70), id="r2"))]
+                st += [("msg", 0, obj(method="change", params=obj(path="s", value="z"), id=4)),
+                       ("wmode", 1, "all"),
+                       ("msg", 0, obj(method="change", params=obj(path="s", value="zz"), id=5)),
+                       ("msg", 2, obj(method="get", params=obj(), id=2)),
+                       ("quiesce",), ("eof", 1), ("quiesce",), ("eof", 0), ("eof", 2), ("quiesce",)]
+                out.append(Scenario(st, name="write-error-after-progress-%s-%s-%s" % (budget.replace(",", "_").replace(":", "_"), role, tr)))
+    return out
